@@ -216,11 +216,11 @@ def r_next(k: bytes) -> bool:
 def h_iter(which: int) -> bool:
     """
     keys()/items()/values()/nodes()/next() have no symbolic input: `which` selects the obligation
-    pre: 0 <= which <= 4
+    pre: 0 <= which <= 5
     post: _
     """
     from vf.xutil import notrace, pick
-    w = pick(which, 5)
+    w = pick(which, 6)
     with notrace():
         return _iter_concrete(w)
 
@@ -261,10 +261,27 @@ def _iter_concrete(w):
                 tn = t.traverse(p)
                 if tn != n:
                     return _fail(f"nodes(): node at {tuple(p)} differs from traverse() of its prefix")
-        else:
+        elif w == 4:
             first = ITEMS[0][0] if ITEMS else None
             if it.next() != first or it.next(None) != first:
                 return _fail(f"next() returned {it.next()!r}, smallest key is {first!r}")
+        else:
+            # the same iterator object after an abandoned walk and a change of the trie enumerates the current contents
+            for _k in it.keys():
+                break
+            m2 = dict(MODEL)
+            if ITEMS:
+                t.delete(ITEMS[-1][0])
+                m2.pop(ITEMS[-1][0])
+                t.set(ITEMS[0][0], b"Z" * 40)
+                m2[ITEMS[0][0]] = b"Z" * 40
+            pool = hc.key_pool(CFG["kpool"], CFG.get("seed", 0))
+            newk = [k for k in pool if k not in MODEL][0]
+            t.set(newk, b"N" * 35)
+            m2[newk] = b"N" * 35
+            got = list(it.items())
+            if got != sorted(m2.items()):
+                return _fail(f"items() of a re-used iterator after changes yielded {got!r}, contents are {sorted(m2.items())!r}")
     except Exception as e:
         return _fail(f"iteration ({w}) raised {type(e).__name__}: {e}")
     COUNTERS["paths"] += 1
@@ -275,7 +292,7 @@ def _iter_concrete(w):
 WARM.update({
     "h_next": lambda cfg: [(b"\x12",), (b"",), (b"\x12\x34",), (b"\xff\xff",)],
     "r_next": lambda cfg: [(b"\xff",)],
-    "h_iter": lambda cfg: [(0,), (3,)],
+    "h_iter": lambda cfg: [(0,), (3,), (5,)],
 })
 
 
